@@ -145,6 +145,11 @@ func (g *gen) esdsPayload() []byte {
 		if g.pct("esds:rawdsi", 20) {
 			dsi = g.bytes("esds:dsibytes", 0, 12)
 		}
+		if g.pct("esds:bigdsi", 6) {
+			// a decoder specific info of 128..400 bytes (e.g. a long program config element): the size fields of the
+			// descriptors around it need two or more 7-bit groups
+			dsi = g.bytes("esds:bigdsibytes", 128, 400)
+		}
 		dcd.raw(g.descriptor("esds:dsi", 5, dsi))
 	}
 	es := &wr{}
